@@ -104,6 +104,13 @@ def run_session(pcfg, save_config, save_filename, load=False, limit=None, quit_a
             return it
     cs.PcfgQueue = RecQueue
     sess = cs.CrackingSession(pcfg, save_config, save_filename)
+    saves = []
+    orig_save = sess._save_session
+
+    def counted_save(*a, **kw):
+        saves.append(len(lines))
+        return orig_save(*a, **kw)
+    sess._save_session = counted_save
     orig_create = pcfg.create_guesses
 
     def create(pt, *a, **kw):
@@ -120,7 +127,7 @@ def run_session(pcfg, save_config, save_filename, load=False, limit=None, quit_a
         cs.PcfgQueue = real_queue
         pcfg.create_guesses = orig_create
     return {'lines': lines, 'events': events, 'stderr': err.getvalue(), 'stdout_noise': out.getvalue(),
-            'session': sess, 'quit': ctl.quit, 'popped': popped}
+            'session': sess, 'quit': ctl.quit, 'popped': popped, 'saves': saves}
 
 
 def load_save(save_filename):
